@@ -30,6 +30,7 @@ func Messages(seed uint64, n int) *Out {
 	// an installation with a custom language key first, then the plain one: the plain key must win again
 	i18n.SetLanguagesErrsMap(langs, "en", i18n.WithLangKey("locale"))
 	i18n.SetLanguagesErrsMap(langs, "en")
+	curDefault := "en"
 	cat := Catalogue()
 	str := func(s string) *string { return &s }
 	emit := func(e CatEntry, lang *string, testMsg *string, execMsg *string) {
@@ -65,7 +66,7 @@ func Messages(seed uint64, n int) *Out {
 			l = "(Some " + eng.CoqStr(*lang) + ")"
 		}
 		o.Add(e.Name, fmt.Sprint(lang != nil, testMsg != nil, execMsg != nil),
-			fmt.Sprintf("(FC $ID %s %s %s [%s] %s %s %s %s)", l, eng.CoqStr(i.Dtype), eng.CoqStr(i.Code), strings.Join(ps, "; "),
+			fmt.Sprintf("(FC $ID %s %s %s %s [%s] %s %s %s %s)", eng.CoqStr(curDefault), l, eng.CoqStr(i.Dtype), eng.CoqStr(i.Code), strings.Join(ps, "; "),
 				eng.CoqStr(fmt.Sprintf("%v", i.Value)), coqOpt(testMsg), coqOpt(execMsg), eng.CoqStr(i.Message)))
 	}
 	langChoices := []*string{nil, str("en"), str("es"), str("fr")}
@@ -78,7 +79,23 @@ func Messages(seed uint64, n int) *Out {
 		emit(e, nil, str("T: own message"), str("E: execution formatter"))
 		emit(e, str("es"), nil, str("")) // an execution formatter that sets nothing
 	}
+	// the same with another default language installed: no language named, or one that is not installed, means that default
+	i18n.SetLanguagesErrsMap(langs, "es")
+	curDefault = "es"
+	for _, e := range cat {
+		for _, l := range langChoices {
+			emit(e, l, nil, nil)
+		}
+		emit(e, str("fr"), str("T: own message"), nil)
+		emit(e, str("fr"), nil, str("")) // an execution formatter that sets nothing
+	}
+	i18n.SetLanguagesErrsMap(langs, "en")
+	curDefault = "en"
 	for len(o.Cases) < n {
+		if r.P(30) != (curDefault == "es") {
+			curDefault = map[bool]string{true: "es", false: "en"}[curDefault == "en"]
+			i18n.SetLanguagesErrsMap(langs, curDefault)
+		}
 		e := cat[r.Intn(len(cat))]
 		var tm, em *string
 		if r.P(40) {
